@@ -22,7 +22,7 @@ ID = "C12"
 LEVEL = "exploration"
 TIERS = {
     "quick": {"shards": 128, "examples": 20, "det_shards": 2},
-    "thorough": {"shards": 1024, "examples": 60, "det_shards": 8},
+    "thorough": {"shards": 2048, "examples": 60, "det_shards": 8},
 }
 RULE = ("case = (world, placement set): a tree (or a lone file) whose modules carry @module doccomments with/without a name "
         "and body, with settings (prefix absent / from -p / -s file / user config, separator, both extension options, header "
